@@ -354,7 +354,14 @@ def main():
     if args.setup:
         sys.exit(cmd_setup())
     if args.replay:
-        sys.exit(cmd_replay(args.replay))
+        try:
+            rc = cmd_replay(args.replay)
+        except BaseException as e:  # noqa: BLE001  a crash while replaying is a harness error, never a verdict
+            import traceback
+            traceback.print_exc()
+            print(f"HARNESS-ERROR replay of {args.replay} crashed: {type(e).__name__}")
+            rc = 3
+        sys.exit(rc)
     if not args.prop:
         ap.error("property id required")
     sys.exit(cmd_check(args.prop.upper(), args.tier, args.jobs, args.only, seed))
